@@ -111,6 +111,9 @@ def same(s1, s2):
 
 def api_body(cfg, a, c, q):
     directed = cfg["directed"]
+    # run starts confined to a window: several observers (inter-event distributions) store time differences in local
+    # dicts, which realises them (M9); with a window the realisation is finite
+    assume((0 <= a) & (a < cfg.get("W", 4)) & (0 <= c) & (c < cfg.get("W", 4)))
     for name in cfg["names"]:
         g = mk(directed, a, c, cfg["lens"])
         fn = getattr(g, name)
@@ -195,7 +198,7 @@ for directed in (False, True):
         REG.add("api_%s_%02d" % ("d" if directed else "u", i), T_api, api_body, cfg=dict(directed=directed, names=ch, lens=(1, 0)),
                 tier="quick", timeout=900, tags=(["blocked"] if any(n in BLOCKED or n == "update" or (directed and n in BLOCKED_DI) for n in ch) else []),
                 twins=1,
-                bounds="%s with pairs (1,2) [2 instants] and %s [1 instant], symbolic starts, isolated node 9, explicit counter and "
+                bounds="%s with pairs (1,2) [2 instants] and %s [1 instant], symbolic starts in 0..3, isolated node 9, explicit counter and "
                        "event index; callables %s with synthesised arguments; arbitrary q" %
                        ("DynDiGraph" if directed else "DynGraph", "(2,1)" if directed else "(2,3)", ch),
                 what="the listed untimed mutators and blocked edge views raise NetworkXNotImplemented and leave nodes, timelines, "
